@@ -237,6 +237,11 @@ impl Core {
                     }
                 }
             }
+        } else if let TaskRuntimeState::Retracting { .. } = &task.state {
+            // A retracting task that has no new target (yet) sits in the ready queue
+            self.task_queues
+                .get_mut(task.resource_rq_id)
+                .remove(task_id, task.priority());
         }
         task.state
     }
